@@ -73,8 +73,11 @@ def run_impl(case):
   before = df.copy(deep=True)
   ge = None
   if case['elig'] is not None:
-    ge = G.GeoEligibility(pd.DataFrame([{'geo': cv(g), 'control': TYPES[t][0], 'treatment': TYPES[t][1], 'exclude': TYPES[t][2]}
-                                        for g, t in case['elig'].items()]))
+    et = pd.DataFrame([{'geo': cv(g), 'control': TYPES[t][0], 'treatment': TYPES[t][1], 'exclude': TYPES[t][2]}
+                       for g, t in case['elig'].items()])
+    if case['seed'] % 4 == 2:
+      et = et.set_index('geo')              # the documented alternative form: geo IDs as the index of the table
+    ge = G.GeoEligibility(et)
   try:
     data = tbrmmdata.TBRMMData(df, rc, ge)
   except ValueError as e:
